@@ -228,6 +228,17 @@ def _raised_in_code_under_test(e):
     return last is not None and last.tb_frame.f_code.co_filename.startswith(REPO_SRC)
 
 
+def _renamed_in_repo(e):
+    import types
+
+    if isinstance(e, AttributeError):
+        o = getattr(e, "obj", None)
+        return isinstance(o, types.ModuleType) and (o.__name__ == "uberjob" or o.__name__.startswith("uberjob."))
+    if isinstance(e, ImportError):
+        return (getattr(e, "name", "") or "").startswith("uberjob")
+    return False
+
+
 def _has_quantifier(e):
     todo, seen = [e], set()
     while todo:
@@ -273,6 +284,9 @@ def explore(run_one, unit_name="", max_paths=MAX_PATHS, props=()):
                                        or (isinstance(e, TypeError) and any(w in str(e) for w in ("positional argument", "keyword argument", "takes ")))):
                 # the code under contract uses a stub / proxy in a way the sidecar does not describe (new callee, other
                 # signature, native iteration of a symbolic value): no contract applies - undecided, not a crash
+                end, err = "unsupported", f"code no longer matches the sidecar's contracts: {type(e).__name__}: {e}"
+            elif ctx.dead is None and _renamed_in_repo(e):
+                # the sidecar looked up a name of the real package that no longer exists (private class / function renamed or moved)
                 end, err = "unsupported", f"code no longer matches the sidecar's contracts: {type(e).__name__}: {e}"
             elif ctx.dead is not None:
                 d = ctx.dead
